@@ -103,6 +103,20 @@ impl Lsp {
         }
     }
 
+    /// Hand the server's stdin to the caller (for a writer thread); give it back with `set_stdin`.
+    pub fn take_stdin(&mut self) -> Option<ChildStdin> {
+        self.stdin.take()
+    }
+    pub fn set_stdin(&mut self, s: ChildStdin) {
+        self.stdin = Some(s);
+    }
+    /// Reserve a request id without sending anything.
+    pub fn fresh_id(&mut self) -> i64 {
+        let id = self.next_id;
+        self.next_id += 1;
+        id
+    }
+
     pub fn notify(&mut self, method: &str, params: Value) -> bool {
         let m = json!({"jsonrpc": "2.0", "method": method, "params": params});
         self.send_bytes(&Self::frame(&m))
